@@ -104,3 +104,12 @@ package expressions
 //@   requires tree != nil
 //@   at call (*ParserT).appendAst#22 assert branch.charPos >= 0
 //@   at call (*ParserT).executeExpr#1 assert branch.charPos >= 0
+
+// ---- C08: a scalar variable's value is its stored string minus one trailing line ending -----------
+// getVar (string form): the value handed to the parser is exactly CrLfTrimString of the stored
+// string - nothing else is trimmed, split or re-parsed here.
+//@ func (*ParserT).getVar [C08]
+//@   scope functional
+//@   check none
+//@   requires tree != nil && tree.p != nil && tree.p.Variables != nil
+//@   ensures imp(strOrVal == 0 && result2 == nil, typeis(result, string) && unbox(result, string) == $crlf($varString(tree.p.Variables, nameS)))
